@@ -23,7 +23,13 @@ def digest(obj):
     return hashlib.sha1(json.dumps(obj, sort_keys=True, default=str).encode()).hexdigest()[:16]
 
 
+Enough = impl.Enough
+
+
 class Report:
+    MAX_VIOLATIONS = 60
+    MAX_DISAGREEMENTS = 600
+
     def __init__(self, prop, tier, seed):
         self.prop, self.tier, self.seed = prop, tier, seed
         self.evaluations = 0
@@ -39,6 +45,8 @@ class Report:
 
     def case(self, case, nontrivial, tags=()):
         self.evaluations += 1
+        if self.violations and time.time() - self.t_start > (150 if self.tier == "quick" else 1800):
+            raise Enough("a failing input is in hand and the run has become slow")
         for t in tags:
             self.dist[t] += 1
         if nontrivial:
@@ -50,10 +58,14 @@ class Report:
 
     def disagree(self, tie, case, impl_out, model_out):
         self.disagreements.append({"tie": tie, "case": case, "impl": impl_out, "model": model_out})
+        if len(self.disagreements) >= self.MAX_DISAGREEMENTS and self.violations:
+            raise Enough("%d correspondence disagreements and %d violations" % (len(self.disagreements), len(self.violations)))
 
     def violate(self, what, case, expected, observed, model_agrees_with_spec=None):
         self.violations.append({"what": what, "case": case, "expected": expected, "observed": observed,
                                 "model_agrees_with_spec": model_agrees_with_spec})
+        if len(self.violations) >= self.MAX_VIOLATIONS:
+            raise Enough("%d violations" % len(self.violations))
 
 
 class Ctx:
